@@ -147,15 +147,16 @@ Proof.
         split; [reflexivity|]. split; [exact Hd|]. split; [exact Hb2|]. split; [exact Hu2|].
         split; [constructor|]. split; [reflexivity|]. reflexivity.
   - (* fragmentation units *)
-    destruct (Z_lt_ge_dec (zlen n) mtu) as [Hlone|Hge].
-    { (* exactly MTU-1 bytes: too long for the fits test, but the payload fills a single fragment -
-         the unit goes out as a single NAL unit packet *)
+    destruct (Z_le_gt_dec (zlen n) mtu) as [Hlone|Hge].
+    { (* MTU-1 or MTU bytes: too long for the fits test, but the unit fits a single NAL unit packet
+         and goes out as one *)
       destruct (flush_reassembles mtu st b Hd Hb Hu) as (fs1 & pk1 & Hfl & Hp1 & Hr1).
       destruct (single_reassembles n Hv) as (p & Hp & Hrs).
       destruct n as [|h0 [|h1 body]]; try contradiction.
       rewrite !zlen_cons in *. pose proof (zlen_nonneg body) as Hb0.
-      replace ((mtu - (3 + 0) <=? 0) || (zlen body =? 0)) with false by lia.
-      rewrite Hfl. replace (zlen body <=? mtu - (3 + 0)) with true by lia.
+      replace (zlen body =? 0) with false by lia.
+      replace (zlen body <=? mtu - (3 + 0) + 1) with true by lia.
+      rewrite Hfl.
       unfold h5_flush at 1. cbn [hb_nalus]. rewrite Hd.
       exists st, (mkH5Buf [] 0), (fs1 ++ [Own (h0 :: h1 :: body)]), (pk1 ++ [p]), (hb_nalus b ++ [h0 :: h1 :: body]).
       split; [reflexivity|]. split; [exact Hd|]. split; [apply buf_ok_empty; lia|]. split; [constructor|].
@@ -164,8 +165,8 @@ Proof.
       intros rest. rewrite <- app_assoc, Hr1. cbn [app]. rewrite Hrs, <- app_assoc. reflexivity. }
     destruct n as [|h0 [|h1 [|x body']]]; try contradiction. set (body := x :: body') in *.
     destruct Hv as (Hh0 & Hh1 & _).
-    assert (Hbig : mtu <= zlen (h0 :: h1 :: body)) by lia.
-    destruct (fu_unit_lossless mtu st b h0 h1 body (proj1 Hm) Hd Hb Hh0 Hh1 Hbig)
+    assert (Hbig : mtu < zlen (h0 :: h1 :: body)) by lia.
+    destruct (fu_unit_lossless mtu st b h0 h1 body (proj1 Hm) Hd Hb ltac:(lia) Hh1 Hbig)
       as (st1 & out1 & fs & cs & Hrun & Hfl & Hrel & Hcat & Hall & H2).
     unfold h5_nalu in Hrun. rewrite Hd in Hrun. replace (zlen (h0 :: h1 :: body) <? 2) with false in Hrun by lia.
     rewrite Efit in Hrun. rewrite Hrun.
